@@ -184,9 +184,10 @@ def replay_text(exe, text, only=None, trace=False):
 
 
 def has_sig(exe, text, prop, sig):
-    sigs, h, crash, _ = replay_text(exe, text, only=None if prop == "C10" else prop)
+    is_crash_sig = sig.split("/")[0] in ("abort", "asan", "ubsan", "signal", "exit", "timeout")
+    sigs, h, crash, _ = replay_text(exe, text, only=None if is_crash_sig else prop)
     if crash is not None:
-        return prop == "C10" and crash[0] == sig
+        return is_crash_sig and crash[0] == sig
     return (prop, sig) in sigs
 
 
@@ -292,8 +293,8 @@ def check(prop, tier):
             tgt = found if v["prop"] == prop else other
             tgt.setdefault((v["prop"], v["sig"]), (job, v["seed"], v["msg"], False))
         for c in res.crashes:
-            if prop == "C10":
-                found.setdefault(("C10", c["sig"]), (job, c["seed"], c["msg"] + " | " + c["stderr"][-600:].replace("\n", " / "), True))
+            if prop == "C10" or spec.get("crash_is_violation"):
+                found.setdefault((prop, c["sig"]), (job, c["seed"], c["msg"] + " | " + c["stderr"][-600:].replace("\n", " / "), True))
             else:
                 other.setdefault(("C10", c["sig"]), (job, c["seed"], c["msg"], True))
 
@@ -306,8 +307,8 @@ def check(prop, tier):
         if text is None:
             lines_out.append("MACHINERY-ERROR: cannot regenerate plan for seed %d" % seed); machinery_broken = True; continue
         # gate: two fresh-process replays must reproduce the same signature (and hash, if the run completes)
-        r1 = replay_text(exe, text, only=None if p == "C10" else p)
-        r2 = replay_text(exe, text, only=None if p == "C10" else p)
+        r1 = replay_text(exe, text, only=None if is_crash else p)
+        r2 = replay_text(exe, text, only=None if is_crash else p)
         ok1 = (r1[2] is not None and r1[2][0] == sig) if is_crash else ((p, sig) in r1[0])
         ok2 = (r2[2] is not None and r2[2][0] == sig) if is_crash else ((p, sig) in r2[0])
         if not (ok1 and ok2 and r1[1] == r2[1]):
